@@ -281,8 +281,9 @@ Fixpoint tset (t : Z) (s : tstate) (l : list (Z * tstate)) : list (Z * tstate) :
   | [] => []
   | (u, s') :: r => if u =? t then (u, s) :: r else (u, s') :: tset t s r
   end.
-Definition running (m : sem) : Z :=
-  Z.of_nat (List.length (filter (fun p => match snd p with TRunning => true | _ => false end) (m_threads m))).
+Definition isrun (p : Z * tstate) : bool := match snd p with TRunning => true | _ => false end.
+Definition runl (l : list (Z * tstate)) : Z := Z.of_nat (List.length (filter isrun l)).
+Definition running (m : sem) : Z := runl (m_threads m).
 
 Definition sem_step (limit : Z) (m : sem) (e : ev) : sem :=
   match e with
